@@ -10,6 +10,7 @@
                             through adapters.VectorToDagIndexer               obs m<id>=d,d,..~a,a,../...
      V k                    raw vectors + branch ids of the last k events, BranchesInfo
      P id self              QuorumIndexer.ProcessEvent                           obs p1 | ps
+     PX id self             ProcessEvent of a copy of event id with a NON-validator creator (GetIdx -> 0)
      G                      GetGlobalMedianSeqs (+ matrix, self-parent seqs)     obs g<meds>:<rows>:<self>
      T id                   GetMetricOf                                          obs t<metric> | ts
    model side: extracted VecIndex / QuorumIdx (with the FC LRU of size fcsize);
@@ -42,8 +43,11 @@ let eval inp obs =
   let ws = List.map n_of_tok (List.filteri (fun i _ -> i < nv) rest) in
   let rest = List.filteri (fun i _ -> i >= nv) rest in
   let fcsize, diffk, mal = (match rest with
-    | [f; _; d; m] -> int_of_string f, n_of_tok d, ref (m = "1") | _ -> failwith "bad header") in
-  let declared_mal = !mal and hyp_bad = ref [] in
+    | [f; _; d; m] -> int_of_string f, n_of_tok d, (m = "1") | _ -> failwith "bad header") in
+  (* mal = 1: the generator corrupted some events.  The specification stays ON until the first accepted
+     event that fails wf_evb (the prefix, and corrupted events that are still well formed such as seq-1
+     events with parents, are inside the theorems' domain); from then on implementation vs model only. *)
+  let declared_mal = mal and mal = ref false and hyp_bad = ref [] in
   let nvn = nat_of_int nv in
   let q = quorum_of ws in
   let s = ref (init nvn) and cache = ref (fcache_new (nat_of_int fcsize)) in
@@ -75,7 +79,8 @@ let eval inp obs =
       if ok then order := e.eid :: !order else order := !orderF;
       if iobs = "e1" then begin
         if not !mal && not (wf_evb nvn !specE e) then begin
-          hyp_bad := (Printf.sprintf "op%d:E%s outside wf_stream" i (ntok e.eid)) :: !hyp_bad; mal := true end;
+          if not declared_mal then hyp_bad := (Printf.sprintf "op%d:E%s outside wf_stream" i (ntok e.eid)) :: !hyp_bad;
+          mal := true end;
         specE := (e.eid, e) :: !specE; table := None end
       else begin specE := !specEF; table := None end;
       if ok && kind = "E" then begin sflushed := !s; orderF := !order end;
@@ -152,6 +157,16 @@ let eval inp obs =
           | Some st -> qi := qi_process st (merged !s idn) e.ecr (self = "1"));
          if c < nv then lastp.(c) <- Some idn;
          if self = "1" then selfev := Some idn;
+         if !qi = None then "pPANIC" else "p1")
+    | ["PX"; id; self] -> (* ProcessEvent of a copy of event id whose creator is NOT a validator: column 0 *)
+      let idn = n_of_tok id in
+      (match alookup idn !s.evs with
+       | None -> "ps"
+       | Some _ ->
+         (match !qi with
+          | None -> ()
+          | Some st -> qi := qi_process_id st (merged !s idn) None (self = "1"));
+         mal := true; (* outside the property from here on: implementation vs model only *)
          if !qi = None then "pPANIC" else "p1")
     | ["G"] ->
       (match !qi with None -> "gPANIC" | Some st ->
